@@ -103,6 +103,8 @@ class C13(PipelineCheck):
             h = {'op': handler}
             if handler == 'error_map':
                 h['value'] = {'rec': 'rec', 'int': -1, 'list': []}[ot]
+                if ot in ('int', 'list') and rng.random() < 0.3:
+                    h['partial'] = True        # the mapper is a functools.partial: a callable without __name__
                 if rng.random() < 0.2:
                     h['value'] = 'same'      # the mapper hands back the very exception object it received
                     ot = 'any'
